@@ -57,7 +57,7 @@ func (s *service) Create(ctx context.Context, record kvs.Record) (string, error)
 	if ctx.Err() != nil {
 		return "", ctx.Err()
 	}
-	if r, ok := s.recs[record.Key]; ok {
+	if r, ok := s.live(record.Key); ok {
 		return r.Version, errors.ErrExist
 	}
 	record.Version = ulidutils.NewID()
@@ -68,16 +68,9 @@ func (s *service) Create(ctx context.Context, record kvs.Record) (string, error)
 func (s *service) Get(ctx context.Context, key string) (kvs.Record, error) {
 	s.lock.Lock()
 	defer s.lock.Unlock()
-	r, ok := s.recs[key]
+	r, ok := s.live(key)
 	if !ok {
 		return kvs.Record{}, errors.ErrNotExist
-	}
-	if r.ExpiresAt != nil {
-		if r.ExpiresAt.Before(time.Now()) {
-			delete(s.recs, key)
-			s.notifyWaiters(key)
-			return kvs.Record{}, errors.ErrNotExist
-		}
 	}
 	return r, nil
 }
@@ -108,16 +101,9 @@ func (s *service) GetMany(ctx context.Context, keys ...string) ([]*kvs.Record, e
 
 	res := make([]*kvs.Record, len(keys))
 	for idx, key := range keys {
-		r, ok := s.recs[key]
+		r, ok := s.live(key)
 		if !ok {
 			continue
-		}
-		if r.ExpiresAt != nil {
-			if r.ExpiresAt.Before(time.Now()) {
-				delete(s.recs, key)
-				s.notifyWaiters(key)
-				continue
-			}
 		}
 		res[idx] = &r
 	}
@@ -127,16 +113,9 @@ func (s *service) GetMany(ctx context.Context, keys ...string) ([]*kvs.Record, e
 func (s *service) CasByVersion(ctx context.Context, record kvs.Record) (kvs.Record, error) {
 	s.lock.Lock()
 	defer s.lock.Unlock()
-	r, ok := s.recs[record.Key]
+	r, ok := s.live(record.Key)
 	if !ok {
 		return kvs.Record{}, errors.ErrNotExist
-	}
-	if r.ExpiresAt != nil {
-		if r.ExpiresAt.Before(time.Now()) {
-			delete(s.recs, record.Key)
-			s.notifyWaiters(record.Key)
-			return kvs.Record{}, errors.ErrNotExist
-		}
 	}
 	if r.Version != record.Version {
 		return kvs.Record{}, errors.ErrConflict
@@ -151,7 +130,7 @@ func (s *service) Delete(ctx context.Context, key string) error {
 	s.lock.Lock()
 	defer s.lock.Unlock()
 
-	if _, ok := s.recs[key]; !ok {
+	if _, ok := s.live(key); !ok {
 		return errors.ErrNotExist
 	}
 	delete(s.recs, key)
@@ -162,7 +141,7 @@ func (s *service) Delete(ctx context.Context, key string) error {
 func (s *service) WaitForVersionChange(ctx context.Context, key, ver string) error {
 	for {
 		s.lock.Lock()
-		r, ok := s.recs[key]
+		r, ok := s.live(key)
 		if !ok {
 			s.lock.Unlock()
 			return errors.ErrNotExist
@@ -177,24 +156,33 @@ func (s *service) WaitForVersionChange(ctx context.Context, key, ver string) err
 			s.verChange[key] = ws
 		}
 		ws.waiters++
+		// the record may expire while nobody touches the key: wake up then and look again
+		var expired <-chan time.Time
+		var tmr *time.Timer
+		if r.ExpiresAt != nil {
+			tmr = time.NewTimer(r.ExpiresAt.Sub(time.Now()) + time.Millisecond)
+			expired = tmr.C
+		}
 		s.lock.Unlock()
 
 		select {
 		case <-ctx.Done():
+			if tmr != nil {
+				tmr.Stop()
+			}
 			s.lock.Lock()
 			defer s.lock.Unlock()
-			ws1, ok := s.verChange[key]
-			if !ok || ws.done != ws1.done {
-				return ctx.Err()
-			}
-			ws.waiters--
-			if ws.waiters == 0 {
-				close(ws.done)
-				delete(s.verChange, key)
-			}
+			s.leaveWaiter(key, ws)
 			return ctx.Err()
+		case <-expired:
+			s.lock.Lock()
+			s.leaveWaiter(key, ws)
+			s.lock.Unlock()
 		case <-ws.done:
 			// need to check the version, go around
+			if tmr != nil {
+				tmr.Stop()
+			}
 		}
 	}
 }
@@ -209,11 +197,40 @@ func (s *service) ListKeys(ctx context.Context, pattern string) (iterable.Iterat
 	}
 	res := []string{}
 	for k := range s.recs {
-		if g.Match(k) {
+		if _, ok := s.live(k); ok && g.Match(k) {
 			res = append(res, k)
 		}
 	}
 	return &keysIterator{res: res}, nil
+}
+
+// live returns the record stored for the key unless it does not exist or is expired. An expired
+// record is removed, so every operation treats it exactly as a deleted one. Must be called under the lock.
+func (s *service) live(key string) (kvs.Record, bool) {
+	r, ok := s.recs[key]
+	if !ok {
+		return kvs.Record{}, false
+	}
+	if r.ExpiresAt != nil && r.ExpiresAt.Before(time.Now()) {
+		delete(s.recs, key)
+		s.notifyWaiters(key)
+		return kvs.Record{}, false
+	}
+	return r, true
+}
+
+// leaveWaiter unregisters one waiter of ws if ws is still the current waiter record for the key.
+// Must be called under the lock.
+func (s *service) leaveWaiter(key string, ws *waiter) {
+	ws1, ok := s.verChange[key]
+	if !ok || ws.done != ws1.done {
+		return
+	}
+	ws.waiters--
+	if ws.waiters == 0 {
+		close(ws.done)
+		delete(s.verChange, key)
+	}
 }
 
 func (s *service) notifyWaiters(key string) {
